@@ -656,7 +656,7 @@ TPDO_MAPS = {
 TPDO_SEQS = [
     # (sequence, inhibit(100us), event(ms), type, vals)
     ('NG', 0, 0, 254), ('G', 0, 0, 254), ('NSG', 0, 0, 254), ('NPG', 0, 0, 254), ('NO', 0, 0, 255), ('NQ', 0, 0, 254), ('NOO', 0, 0, 254),
-    ('NGGTTG', 20, 0, 254), ('NGGTGTT', 20, 0, 254), ('NGTTTG', 30, 0, 254), ('NOGTT', 10, 0, 254), ('NGQTT', 10, 0, 254),
+    ('NGGTTG', 20, 0, 254), ('NGGTGTT', 20, 0, 254), ('NGTTTG', 30, 0, 254), ('NOT', 0, 2, 254), ('NOG', 10, 0, 254), ('NGQTT', 10, 0, 254),
     ('NTTTT', 0, 2, 254), ('NTGTTT', 0, 2, 254), ('NTTGTT', 0, 3, 255), ('NGTTTT', 20, 2, 254), ('NGTGTTT', 20, 3, 254), ('NGGTTTT', 20, 2, 254),
     ('NGETT', 20, 0, 254), ('NGGETTG', 20, 0, 254), ('NGGETTT', 30, 2, 254), ('NETTT', 0, 0, 254), ('NTETT', 0, 3, 254), ('NGEGTG', 20, 0, 254),
     ('NIGGT', 0, 0, 254), ('NISNGGTT', 0, 0, 254), ('NGSNGTG', 30, 0, 254), ('NGSTNTG', 20, 0, 254), ('NTSNTTT', 0, 2, 254), ('NGPNGGT', 20, 0, 254),
@@ -704,8 +704,12 @@ def c12(tier):
         out.append(tpdo_inst('aw_ab', sq, inh, evt, tt, vals=(2, 2, 2, 2, 2, 2, 2, 2, 2)))
     if tier != 'quick':
         import itertools
-        for t in itertools.product('GTOE', repeat=5):
+        # (a timer armed by an object-write trigger that later EXPIRES makes cbmc's symbolic execution hang - the TPDO pointer
+        #  comes out of the TMap table - so timers are exercised with application triggers, object writes without expiry)
+        for t in itertools.product('GTE', repeat=5):
             out.append(tpdo_inst('ab', 'N' + ''.join(t), 20, 2, 254, vals=(1, 2, 1, 2, 1, 2, 1, 2, 1)))
+        for t in itertools.product('GOQ', repeat=4):
+            out.append(tpdo_inst('ab', 'N' + ''.join(t), 0, 0, 254, vals=(1, 2, 1, 2, 1, 2, 1, 2, 1)))
     return out
 
 
